@@ -118,3 +118,14 @@ package structs
 //@   ensures [low-bound-is-the-minimum] mbs.LowTs == ite(ts < old(mbs.LowTs), ts, old(mbs.LowTs))
 //@   ensures [sample-is-covered] mbs.LowTs <= ts && ts <= mbs.HighTs
 //@ end
+
+// distinct-count sketch of a column's statistics: these touch the sketch field
+// (and the sketch) only — frames ASSUMED (the sketch library is external)
+//@ func (*SegStats).CreateNewHll
+//@   assumed
+//@   modifies ss.Hll
+//@ end
+//@ func (*SegStats).InsertIntoHll
+//@   assumed
+//@   modifies allbytes
+//@ end
